@@ -1285,6 +1285,83 @@ def oracle_threadpool(c, obs):
     return []
 
 
+def gen_condition(rng):
+    nwait = rng.randint(1, 4)
+    return dict(kind="condition", waiters=[rng.choice([0, 0, 500, 1000]) for _ in range(nwait)],
+                notifies=[dict(at=rng.choice([2000, 3000, 5000, 8000]), n=rng.choice([1, 1, 2, 0])) for _ in range(rng.randint(1, 4))]
+                + [dict(at=20000, n=0)],           # n = 0: notify_all (a final one releases everybody)
+                hold=rng.choice([0, 1000, 3000]))
+
+
+def impl_condition(c):
+    from happysimulator import Entity, Event, Instant, Simulation
+    from happysimulator.components.sync import Condition, Mutex
+    from hsverif.util import run_bounded
+    m = Mutex("m")
+    cv = Condition("cv", m)
+    log = []
+    inside = [0]
+
+    class Waiter(Entity):
+        def __init__(self, i):
+            super().__init__(f"w{i}")
+            self.i, self.done = i, False
+
+        def handle_event(self, event):
+            yield from m.acquire(owner=str(self.i))
+            inside[0] += 1
+            log.append(["in", self.i, self.now.nanoseconds, inside[0]])
+            inside[0] -= 1                       # wait() releases the mutex
+            yield from cv.wait()
+            inside[0] += 1
+            log.append(["woke", self.i, self.now.nanoseconds, inside[0]])
+            yield c["hold"] / 1e9
+            inside[0] -= 1
+            m.release()
+            self.done = True
+
+    class Notifier(Entity):
+        def handle_event(self, event):
+            n = event.context["metadata"]["n"]
+            yield from m.acquire(owner="n")
+            inside[0] += 1
+            before = cv.waiters
+            if n:
+                cv.notify(n)
+            else:
+                cv.notify_all()
+            log.append(["notify", n, self.now.nanoseconds, before, cv.waiters, inside[0]])
+            inside[0] -= 1
+            m.release()
+
+    ws = [Waiter(i) for i in range(len(c["waiters"]))]
+    nt = Notifier("n")
+    sim = Simulation(entities=[m, cv, nt] + ws)
+    for w, at in zip(ws, c["waiters"]):
+        sim.schedule(Event(time=Instant(at), event_type="go", target=w))
+    for x in c["notifies"]:
+        sim.schedule(Event(time=Instant(x["at"]), event_type="n", target=nt, context={"metadata": {"n": x["n"]}}))
+    summary, verdict = run_bounded(sim, max_events_per_instant=600, max_events=20000, wall_s=20.0)
+    return dict(verdict=verdict, log=log, done=[w.done for w in ws], locked=m.is_locked, waiting=cv.waiters,
+                stats=[cv.stats.waits, cv.stats.wakeups])
+
+
+def oracle_condition(c, obs):
+    if obs["verdict"] != "ok":
+        return [dict(clause="waiting consumes no simulated activity, so the clock advances to the release", mechanism="spin-wait", verdict=obs["verdict"])]
+    out = []
+    if any(e[-1] > 1 for e in obs["log"]):
+        out.append(dict(clause="the mutex of a condition has at most one holder", log=obs["log"]))
+    for e in obs["log"]:
+        if e[0] == "notify":
+            expect = 0 if e[1] == 0 else max(0, e[3] - e[1])
+            if e[4] != expect:
+                out.append(dict(clause="notify(n) wakes min(n, waiting) waiters, notify_all wakes all", entry=e))
+    if not all(obs["done"]) or obs["locked"] or obs["waiting"]:
+        out.append(dict(clause="every waiter whose predecessor releases is eventually served", done=obs["done"], locked=obs["locked"], waiting=obs["waiting"]))
+    return out
+
+
 # --------------------------------------------------------------------------- two combined families
 def _with_kind(kind, gen):
     def g(rng):
@@ -1306,6 +1383,8 @@ SIM_KINDS = {
              lambda c, o: any(e["code"] == 4 for e in o["trace"])),
     "bulkhead": (gen_bulkhead, impl_bulkhead, lambda c, o: "CaseBulkhead " + encode_bulkhead(c, o), oracle_bulkhead, None,
                  lambda c, o: any(e["op"][0] == "resp" and e["code"] == 1 for e in o["trace"])),
+    "condition": (gen_condition, impl_condition, lambda c, o: "CaseOracleOnly", oracle_condition, None,
+                  lambda c, o: any(e[0] == "woke" for e in o["log"])),
     "threadpool": (gen_threadpool, impl_threadpool, lambda c, o: "CaseOracleOnly", oracle_threadpool, None,
                    lambda c, o: len(o["samples"]) > 2),
 }
@@ -1354,7 +1433,7 @@ def impl_direct(c):
     return DIRECT_KINDS[c.get("family_kind") or c["kind"]][1](c)
 
 
-_sim_family, _ = _combined("sim", SIM_KINDS, dict(threadpool=0.4, barrier=0.8), True)
+_sim_family, _ = _combined("sim", SIM_KINDS, dict(threadpool=0.4, barrier=0.8, condition=0.5), True)
 _sim_family.impl = impl_sim
 _direct_family, _ = _combined("direct", DIRECT_KINDS, dict(resource_direct=2, limiter=1.5, preemptible=1), False)
 _direct_family.impl = impl_direct
@@ -1408,7 +1487,7 @@ def run(ctx):
         "arrival order across ALL acquirers is refuted for Resource and Semaphore (c09_resource_arrival_order_refuted, c09_semaphore_arrival_order_refuted; known findings C09-resource-overtake, C09-semaphore-overtake); FIFO among blocked acquirers, no-overtaking for unit/larger amounts, and full no-overtaking for Mutex/RWLock are proved",
         "PARTIAL: a queued ConnectionPool client notices the connection handed to it only at its next poll tick (c09_pool_grant_seen_at_next_poll_partial); DynamicConcurrency bound is relative to the limit in force (c09_limiter_dynamic_partial)",
         "waiting-is-free is proved at the generator level (blocked acquire yields a future, the resume after the wake finishes: *_wait_is_parked) and checked on real runs (events processed == workers + one resume per yield; woken waiter resumes at the instant of the release; frozen-clock watchdog)",
-        "oracle only (exploration, no Coq model): PreemptibleResource (conservation, head waiter never fits, at-most-once), ThreadPool (active workers <= num_workers); not covered: Condition (its wait loop was repaired together with the other sync primitives), Grant.__del__ warnings, float amounts, ConnectionPool.warmup/close_all",
+        "oracle only (exploration, no Coq model): PreemptibleResource (conservation, head waiter never fits, at-most-once), ThreadPool (active workers <= num_workers), Condition (no frozen clock, mutex exclusion, notify counts, every waiter served); not covered: Grant.__del__ warnings, float amounts, ConnectionPool.warmup/close_all",
         "ConnectionPool poll count before timeout is computed by the harness with the same float loop as the code and passed to the model as a parameter",
     ]
 
